@@ -106,7 +106,7 @@ fn memory_case() -> BoxedStrategy<HistCase> {
         proptest::sample::select(MAX_ENTRIES.to_vec()),
         proptest::sample::select(MAX_BYTES.to_vec()),
         def_ttl_strategy(),
-        prop_oneof![6 => 0u8..6, 1 => 240u8..248],
+        prop_oneof![6 => 0u8..6, 1 => 240u8..248, 1 => 230u8..240],
         any::<u16>(),
         prop::bool::weighted(0.25),
         any::<u64>(),
@@ -127,7 +127,7 @@ fn disk_case() -> BoxedStrategy<HistCase> {
     (
         prop_oneof![2 => Just(0usize), 1 => Just(1usize), 2 => Just(2usize)],
         def_ttl_strategy(),
-        prop_oneof![6 => 0u8..6, 1 => 240u8..248],
+        prop_oneof![6 => 0u8..6, 1 => 240u8..248, 1 => 230u8..240],
         2usize..=14,
         any::<u64>(),
         proptest::collection::vec(op_strategy(Kind::Disk), 1..=60),
@@ -148,7 +148,7 @@ fn protocol_case() -> BoxedStrategy<HistCase> {
         proptest::sample::select(MAX_ENTRIES.to_vec()),
         proptest::sample::select(vec![1usize, 10, 100, 1000, 1 << 20]),
         prop_oneof![3 => Just(DefTtl::Hour), 1 => Just(DefTtl::Zero)],
-        prop_oneof![6 => 0u8..6, 1 => 240u8..248],
+        prop_oneof![6 => 0u8..6, 1 => 240u8..248, 1 => 230u8..240],
         any::<u16>(),
         prop::bool::weighted(0.25),
         any::<u64>(),
@@ -164,7 +164,7 @@ fn protocol_case() -> BoxedStrategy<HistCase> {
         });
     let disk = (
         prop_oneof![3 => Just(DefTtl::Hour), 1 => Just(DefTtl::Zero)],
-        prop_oneof![6 => 0u8..6, 1 => 240u8..248],
+        prop_oneof![6 => 0u8..6, 1 => 240u8..248, 1 => 230u8..240],
         2usize..=10,
         any::<u64>(),
         proptest::collection::vec(op_strategy(Kind::Proto { disk: true }), 1..=40),
